@@ -300,7 +300,14 @@ func runRestoreCase(self string, c Case) result {
 					return
 				}
 				if st := readRestored(ndb, meta.Root, r.NKeys); st != "exact" {
-					res.viol = append(res.viol, where+": finalized restored root reads back "+st)
+					what := where + ": finalized restored root reads back " + st
+					if c.Backend == "badger" && strings.HasPrefix(p, "badger.finalize.afterMetaCommit#") {
+						// last-finalized was committed, the multipart log was not yet cleared: the cleanup on
+						// reopen removes the nodes of the now finalized checkpoint
+						res.keyed = append(res.keyed, [2]string{"C07:badger-restore-finalize-crash-reopen-removes-finalized-nodes", what})
+					} else {
+						res.viol = append(res.viol, what)
+					}
 				}
 				res.notes["restore:fully"]++
 			} else {
@@ -330,7 +337,12 @@ func runRestoreCase(self string, c Case) result {
 					return
 				}
 				if st := readRestored(ndb, meta.Root, r.NKeys); st != "exact" {
-					res.viol = append(res.viol, where+": root restored after reopen reads back "+st)
+					what := where + ": root restored (and finalized without error) after reopen reads back " + st
+					if c.Backend == "pathbadger" && strings.Contains(st, "node not found") {
+						res.keyed = append(res.keyed, [2]string{"C07:pathbadger-restore-after-unfinished-multipart-at-same-version-unreadable", what})
+					} else {
+						res.viol = append(res.viol, what)
+					}
 				}
 				if l, h := ndb.GetLatestVersion(); !h || l != restoreVersion {
 					res.viol = append(res.viol, where+": restore after reopen did not finalize the version")
